@@ -30,6 +30,9 @@ def main(ctx):
     else:
         cases = ic.gen_cases(ctx, "C03")
         fixtures = None
+        lim = int(os.environ.get("INST_LIMIT", "0") or "0")      # debugging aid: only every n-th case
+        if lim:
+            cases = cases[::lim]
     by_id = {c["id"]: c for c in cases}
     problems = {}
 
@@ -66,6 +69,5 @@ def main(ctx):
     ev.extra["mean_compile_ms"] = round(stats["compile_ms"] / max(1, stats["compiled"]), 1)
 
     # (O) repository fixtures
-    if not cases or fixtures:
-        pass
-    ic.fixtures_check(ctx, "C03", "outline", only=fixtures)
+    if not ctx.replay or fixtures:
+        ic.fixtures_check(ctx, "C03", "outline", only=fixtures)
